@@ -46,6 +46,9 @@ type WOpts struct {
 	Pool            env.PoolCfg `json:"pool"`
 	Sorting         []SortCol   `json:"sorting,omitempty"`
 	DropDuplicates  bool        `json:"drop_duplicates,omitempty"`
+	// EncryptKey, when set, encrypts the file (footer key for every column)
+	EncryptKey      []byte      `json:"encrypt_key,omitempty"`
+	EncryptedFooter bool        `json:"encrypted_footer,omitempty"`
 	KV              [][2]string `json:"kv,omitempty"`
 	SkipPageBounds  [][]string  `json:"skip_page_bounds,omitempty"`
 }
@@ -195,6 +198,9 @@ type Env struct {
 // Options converts o into library options. Simulated pools are created in e.
 func (o *WOpts) Options(e *Env) []parquet.WriterOption {
 	var opts []parquet.WriterOption
+	if len(o.EncryptKey) > 0 {
+		opts = append(opts, parquet.WithEncryption(&parquet.EncryptionConfig{FooterKey: o.EncryptKey, EncryptedFooter: o.EncryptedFooter}))
+	}
 	if o.PageBufferSize > 0 {
 		opts = append(opts, parquet.PageBufferSize(o.PageBufferSize))
 	}
@@ -309,7 +315,9 @@ type FOpts struct {
 	Optimistic       bool `json:"optimistic,omitempty"`
 	ReadBufferSize   int  `json:"read_buffer_size,omitempty"`
 	Async            bool `json:"async,omitempty"`
-	EOFAtEnd         bool `json:"eof_at_end,omitempty"`
+	// DecryptKey, when set, is the key every module of the file is read with
+	DecryptKey []byte `json:"decrypt_key,omitempty"`
+	EOFAtEnd   bool   `json:"eof_at_end,omitempty"`
 }
 
 func GenFOpts(t *tape.Tape) FOpts {
@@ -340,8 +348,17 @@ func (o *FOpts) Options() []parquet.FileOption {
 	if o.ReadBufferSize > 0 {
 		opts = append(opts, parquet.ReadBufferSize(o.ReadBufferSize))
 	}
+	if len(o.DecryptKey) > 0 {
+		opts = append(opts, parquet.WithDecryption(oneKey(o.DecryptKey)))
+	}
 	if o.Async {
 		opts = append(opts, parquet.FileReadMode(parquet.ReadModeAsync))
 	}
 	return opts
 }
+
+// oneKey is a KeyRetriever answering every request with the same key.
+type oneKey []byte
+
+func (k oneKey) FooterKey([]byte) ([]byte, error)           { return k, nil }
+func (k oneKey) ColumnKey([]string, []byte) ([]byte, error) { return k, nil }
